@@ -366,6 +366,12 @@ class Fold:
 
     def cond_str(self, c):
         if isinstance(c, tuple):
+            if c and c[0] == "switch" and len(c) == 3:
+                return "switch(%s) in %s" % (self.cond_str(c[1]), list(c[2]))
+            if c and c[0] in ("loop", "each") and len(c) == 3:
+                return "(%s %s %s)" % (c[1], c[0], self.cond_str(c[2]) if c[2] is not None else None)
+            if len(c) == 1:
+                return str(c[0])
             if len(c) == 4 and c[0] == "ite":
                 return "ite(%s, %s, %s)" % (self.cond_str(c[1]), self.cond_str(c[2]), self.cond_str(c[3]))
             if len(c) == 2:
@@ -712,6 +718,10 @@ class Fold:
             return Matrix([1 if short[-1] == c else 0 for c in "XYZ"])
         # opaque
         name = short
+        if callee in ("std::make_unique", "std::make_shared") and n.get("callee_targs"):
+            mt = re.search(r"<\s*([\w:]+)", n["callee_targs"])
+            if mt:
+                return F("%s<%s>" % (short, mt.group(1).split("::")[-1]))(*[self.scalarize(a) for a in args]) if args else S("%s<%s>()" % (short, mt.group(1).split("::")[-1]))
         if short == "lpNorm":
             mt = re.search(r"<(-?\w+)>$", n.get("callee_targs") or "")
             if mt and mt.group(1) == "1" and obj is not None and not args:
